@@ -25,6 +25,7 @@ const cborPath = "github.com/fxamacker/cbor/v2"
 // tree with one file replaced through an overlay by a mutator).
 type Prog struct {
 	Repo         string
+	kindsBusy    map[*ssa.Function]bool
 	Fset         *token.FileSet
 	Pkg          *packages.Package
 	SSA          *ssa.Program
